@@ -14,7 +14,7 @@ class CaseTimeout(BaseException):
 
 
 def _alarm(signum, frame):
-    raise CaseTimeout()
+    raise CaseTimeout("wall" if signum == signal.SIGALRM else "cpu")
 
 
 _counter = [0]
@@ -33,6 +33,9 @@ def classify(hy, tree, timeout=3.0):
     # point (an exception raised while an import lock is held leaves the worker dead-locked)
     signal.signal(signal.SIGVTALRM, _alarm)
     signal.setitimer(signal.ITIMER_VIRTUAL, timeout)
+    # and a generous wall-clock limit for a case that blocks without using CPU
+    signal.signal(signal.SIGALRM, _alarm)
+    signal.setitimer(signal.ITIMER_REAL, 30.0)
     try:
         with warnings.catch_warnings():
             warnings.simplefilter("ignore")
@@ -42,8 +45,8 @@ def classify(hy, tree, timeout=3.0):
             stage = "marshal"
             marshal.dumps(code)
         return ("ok", "", "", "")
-    except CaseTimeout:
-        return ("timeout", stage, "", "")
+    except CaseTimeout as t:
+        return ("timeout", stage, str(t) or "cpu", "")
     except RecursionError as e:
         return ("violation", stage, "RecursionError", str(e)[:200])
     except BaseException as e:
@@ -55,6 +58,7 @@ def classify(hy, tree, timeout=3.0):
         return ("violation", stage, type(e).__name__, msg[-600:] if type(e).__name__ == "HyCompileError" else msg[:300])
     finally:
         signal.setitimer(signal.ITIMER_VIRTUAL, 0)
+        signal.setitimer(signal.ITIMER_REAL, 0)
         sys.modules.pop(name, None)
 
 
@@ -317,6 +321,7 @@ def worker(args):
     counts, fails, samples = {}, {}, []
     distinct = set()
     nontrivial = 0
+    wall_timeouts = 0
     for i in range(n):
         stream, tree = gen.case()
         head = str(tree[0]) if isinstance(tree, hy.models.Expression) and tree and isinstance(tree[0], hy.models.Symbol) else "(no head)"
@@ -327,6 +332,15 @@ def worker(args):
         counts["stream:" + stream] = counts.get("stream:" + stream, 0) + 1
         counts["head:" + head] = counts.get("head:" + head, 0) + 1
         counts["verdict:" + res[0]] = counts.get("verdict:" + res[0], 0) + 1
+        if res[0] == "timeout":
+            counts["timeout:" + res[2]] = counts.get("timeout:" + res[2], 0) + 1
+            if res[2] == "wall":
+                wall_timeouts += 1
+                if wall_timeouts >= 3:
+                    # this worker keeps blocking (e.g. on a lock left behind by an interrupted import): give the job up
+                    counts["job-abandoned-after-3-wall-timeouts"] = 1
+                    n = i + 1
+                    break
         if res[0] == "user-error":
             counts["user-error:%s:%s" % (res[1], res[2])] = counts.get("user-error:%s:%s" % (res[1], res[2]), 0) + 1
         text = render(hy, tree)
